@@ -51,6 +51,19 @@ def check_pwa(o):
     except TriangleContainmentError as e:
         if not np.array_equal(np.asarray(e.points_outside_source_domain), np.ones(len(out), dtype=bool)):
             bad.append(("containment error mask wrong for all-outside input", {"got": e.points_outside_source_domain}, None))
+    # ... also when ONE point is asked for (as an array or a one-point cloud, batched or not): one flag, in a (1,) mask
+    from menpo.shape import PointCloud as _PC
+
+    for b in (None, 1, 3):
+        for form, arg in (("array", out[:1].copy()), ("point cloud", _PC(out[:1].copy()))):
+            try:
+                w.apply(arg, batch_size=b)
+                bad.append(("a single point outside the source domain (%s, batch_size=%r) was accepted" % (form, b), {}, None))
+            except TriangleContainmentError as e:
+                m1 = np.asarray(e.points_outside_source_domain)
+                if m1.shape != (1,) or not bool(m1[0]):
+                    bad.append(("containment error for a single outside point (%s, batch_size=%r) does not carry one flag per input point" % (form, b),
+                                {"mask_shape": list(m1.shape)}, None))
     if not w.has_true_inverse:
         bad.append(("PWA has_true_inverse is not True", {}, None))
     inv = w.pseudoinverse()
@@ -97,6 +110,21 @@ def check_mask(o):
             elif m.shape != want.shape or not np.array_equal(m.astype(bool), want):
                 bad.append((cls + ": containment error does not identify exactly the outside points, once per input point",
                             {"batch": b, "got": m, "want": want}, None))
+    # one point at a time: an outside point alone is refused with a (1,) mask, an inside point alone is mapped to its row
+    if want.any() and not want.all():
+        io, ii = int(np.argmax(want)), int(np.argmax(~want))
+        for cls in ("PiecewiseAffine", "PythonPWA"):
+            w, S, T = _pwa(o, cls)
+            try:
+                w.apply(pts[io:io + 1].copy(), batch_size=b)
+                bad.append((cls + ": a single out-of-domain point was accepted", {"batch": b}, None))
+            except TriangleContainmentError as e:
+                m1 = np.asarray(e.points_outside_source_domain)
+                if m1.shape != (1,) or not bool(m1[0]):
+                    bad.append((cls + ": the containment error for a single outside point does not carry one flag per input point", {"batch": b, "mask_shape": list(m1.shape)}, None))
+            g1 = np.asarray(w.apply(pts[ii:ii + 1].copy(), batch_size=b))
+            if g1.shape != (1, 2) or not L.close(g1, img[ii:ii + 1], TOL):
+                bad.append((cls + ": a single in-domain point is not mapped to its image", {"batch": b}, None))
     # the same containment decides which pixels a boolean image keeps (constrain_to_pointcloud): one flag per index, any batch size
     from menpo.image.boolean import pwa_point_in_pointcloud
     from menpo.shape import TriMesh
